@@ -1,13 +1,50 @@
 """Per-property texts for MANIFEST.json (kept apart from the job registry)."""
 NOTES = ("Contract-based deductive verification with CBMC code contracts on the real sources; see DESIGN.md. "
          "exit 0 = all obligations discharged, exit 1 = VIOLATION, exit 2 = undecided (tool limit / time-out / broken anchor).")
-NOT_CLAIMED = {}
+NOT_CLAIMED = {
+ "C07": "2-run hyperproperty (same per-client projection under every interleaving): contracts decide only its write-frame part, which is checked inside the C01-C06/C10 jobs ('other clients' records untouched'); read-independence has no CBMC contract form (no reads clause) - see DESIGN 5 C07 / 8",
+}
 _IAUTH_NOTE = ("callees are replaced by their executable contracts (spec/iauth_model.h: assert precondition, perform the specified effect on the request and the "
                "ghost log) and each contract is discharged on the real function in its own job; set.c is used through its sorted-map contract (spec/set_model.h), "
                "discharged for the real splay tree in C19 up to N elements; libevent, logging and stdio by contract (stubs/env_iauth.c); histories are covered by "
                "induction over the request invariant INV (DESIGN section 4), not by enumeration. No native replay driver for protocol-step obligations: the replay "
                "file carries the counterexample state; defects found were reproduced on the daemon with the histories under findings/.")
 CLAIMS = {
+ "C04": dict(
+  text="iauth_routing o iauth_validate_request is proved to find exactly the instance (id, serial) the tag was issued for and nobody for a stale serial or unknown id "
+       "(all ids/serials symbolic); every tag text up to 19 bytes yields the live request or NULL without memory errors; the reply handler is proved to have an "
+       "EMPTY frame (request, client record, every service record, ghost log all unchanged) for a reply whose tag is invalid or whose service is not awaited; a new "
+       "announcement gets serial+1.",
+  design_ref="§5 C04", note=_IAUTH_NOTE + " strtol/strtoul and printf by models differential-tested against glibc at setup.",
+  technique="CBMC harness proofs on the real functions: round trip + frame (no-change) postcondition"),
+ "C05": dict(
+  text="Per reply kind postconditions of the real reply handler (NO -> kill with reply+3 verbatim; MORE/AGAIN -> challenge with the text verbatim to this request; OK "
+       "<acct> from a login-type service stamps exactly that account, a drone-check never does; +x exactly for clients that asked for hiding) and of iauth_accept "
+       "(R exactly when an account stamp is held, else D).",
+  design_ref="§5 C05", note=_IAUTH_NOTE, technique="CBMC per-function postconditions over the ghost log (pointer identity for verbatim relay)"),
+ "C06": dict(
+  text="The real query builder is proved, for every state, to send a query to exactly the services that are due (configured, not yet asked or password retry, "
+       "protocol prerequisites met, login needs a password), with this client's nick/address/host/real name/credentials (pointer identity) and the user name "
+       "'ident else ~claimed' within USERLEN (content); the core handlers are proved to copy server-supplied fields within their limits, NUL-terminated.",
+  design_ref="§5 C06", note=_IAUTH_NOTE + " Service table of 2 slots (bounded). The password-shape clause (check_password) is not yet under contract.",
+  technique="CBMC per-function postconditions over a ghost query log"),
+ "C08": dict(
+  text="The real tokenizer/dispatcher iauth_read is run on EVERY line up to the stated length (quick 10, thorough 16 bytes): no memory error, at most 16 arguments all "
+       "inside the line, handlers only for live ids, each handler's dereferenced parameter present; EOF requests a clean loop exit, a read error changes nothing.",
+  design_ref="§5 C08", note="bounded line length; libevent buffering/chunking is outside (S3) - the chunking-independence clause is not decidable by contracts on this code. " + _IAUTH_NOTE,
+  technique="CBMC bounded harness on the real dispatcher, handlers replaced by their preconditions"),
+ "C09": dict(
+  text="The single formatter iauth_send is proved, for each of the 22 format strings used by the modules, to write exactly one line ending in the only newline, "
+       "starting with the message type, and for client-directed messages <type> <id> <address text> <port> followed by the arguments verbatim; log_vmessage is "
+       "proved to write to stdout only when verbosity was raised (debug mode). The address text denotes the announced address by C12.",
+  design_ref="§5 C09", note="string arguments up to 11 bytes (bounded); printf by model; 'nothing else writes to stdout' is a static fact about the call graph, not a proof. " + _IAUTH_NOTE,
+  technique="CBMC harness proofs of the real formatter against a read-back of the line"),
+ "C11": dict(
+  text="iauth_class_rule_check is proved to apply exactly when all present criteria hold (glob results uninterpreted, address prefix by the C13 spec, account glob on "
+       "the name before ':'), to assign class-or-name, count the hit and upgrade a ~ ident only under trust_username; iauth_class_assign is proved to take the "
+       "first matching rule in vector order, stop there, and skip pre-assigned clients.",
+  design_ref="§5 C11", note="rule names up to 7 (quick) / 69 (thorough) bytes, 4 rules (bounded); rule compilation order (iauth_class_conf_changed) not yet under contract. " + _IAUTH_NOTE,
+  technique="CBMC per-function postconditions, callee contracts"),
  "C01": dict(
   text="Per-function contracts over a ghost log of server-channel events: the gate, the three verdict functions, soft-done, every data handler, "
        "registration/disconnect and client announcement are each proved (real body, all inputs) to emit at most one verdict and one soft-done, to retire the "
